@@ -46,3 +46,8 @@ Check c12_lag_is_previous : forall db p now clock id u ch db' e,
   lookup_id (entries db) id = Some e ->
   exists e', lookup_id (entries db') id = Some e' /\ e_lag e' = e_dp e
              /\ exists v, u_dp u = Some v /\ e_dp e' = {| d_ts := clock; d_value := v |}.
+Check c12_subquery_operand_refused : forall schema : list Z -> option data_type,
+  compile_expr schema QSub = Err EUnsupportedOperation /\
+  (forall op a, compile_expr schema (QBin op QSub a) = Err EUnsupportedOperation) /\
+  (forall a neg hi, (exists c, compile_expr schema a = Ok c) ->
+                    compile_expr schema (QBetween a neg QSub hi) = Err EUnsupportedOperation).
